@@ -307,4 +307,13 @@ func TestVerifC07Bulk(t *testing.T) {
 		c07RunHistory(r, sp, "preload1100>"+strings.Join(n, ">"), h, 1100, "", false)
 		r.Count("histories", 1)
 	}
+	// record counts that are exact multiples of the rebuild's chunk size (1000): the last chunk
+	// commit is then the last write of the rebuild and the trailing batch is empty
+	for _, pre := range []int{1000, 2000} {
+		if pre == 2000 && !vh.Thorough() {
+			continue
+		}
+		c07RunHistory(r, sp, fmt.Sprintf("preload%d>RebuildIndexes", pre), hist[0], pre, "", false)
+		r.Count("histories", 1)
+	}
 }
